@@ -1773,6 +1773,9 @@ func hRunHistory(t *testing.T, out *vOut, r *rand.Rand, id int) {
 		doReload(-1)
 		pol := []string{"require", "prefer"}[r.Intn(2)]
 		dual := gSpec{LB: true, Fam: "dual", ClusterOK: true, Pol: pol, Ports: []int{1}, WantKind: "annot", WantIPs: []string{"10.0.0.4", "fc00::4"}}
+		if r.Intn(2) == 0 {
+			dual.WantIPs = []string{"fc00::4", "10.0.0.4"} // the written status is in its canonical order whatever the request's order
+		}
 		doPut("ns1/a", dual)
 		doSvc("ns1/a", false)
 		if drain() {
